@@ -419,7 +419,42 @@ func Main(t *testing.T) {
 		return
 	}
 	loadKnown(ctx)
+	runRegress(ctx, e)
 	e.Run(ctx)
+}
+
+// runRegress replays every saved case under regress/<prop>/ (shrunk failures
+// of defects found earlier, seeded-mutant witnesses) before the search starts.
+func runRegress(ctx *Ctx, e *Engine) {
+	if ctx.Shard != 0 || e.Replay == nil {
+		return
+	}
+	dir := os.Getenv("VERIF_REGRESS")
+	if dir == "" {
+		dir = "/verif/regress"
+	}
+	files, _ := filepath.Glob(filepath.Join(dir, ctx.Prop, "*.json"))
+	sort.Strings(files)
+	for _, f := range files {
+		js, err := os.ReadFile(f)
+		if err != nil {
+			continue
+		}
+		var cs Case
+		if err := json.Unmarshal(js, &cs); err != nil {
+			fmt.Printf("HARNESS-ERROR bad regress file %s: %v\n", f, err)
+			continue
+		}
+		ctx.Eval(1)
+		ctx.Label("regression cases replayed")
+		if err := safely(func() error { return e.Replay(ctx, &cs) }); err != nil {
+			fmt.Printf("VIOLATION property=%s replay=%s\n  detail: %s\n", ctx.Prop, f, trunc(err.Error(), 1500))
+			ctx.mu.Lock()
+			ctx.violations = append(ctx.violations, f)
+			ctx.mu.Unlock()
+			ctx.T.Fail()
+		}
+	}
 }
 
 func newCtx(t *testing.T, prop string) *Ctx {
